@@ -9,10 +9,19 @@ PROP = dict(
     ] + [
         dict(module="Shutdown", cfg=dict(quick="Shutdown_quick.cfg", thorough="Shutdown_thorough.cfg"), workers=4, timeout=300),
         dict(module="Shutdown", cfg=dict(quick="ShutdownEmit_quick.cfg", thorough="ShutdownEmit_thorough.cfg"), emit=True, workers=2, timeout=300),
+    ] + [
+        # extension: TLS session-ticket key rotation and its goroutine lifecycle (notes/TicketRotation.md)
+        dict(module="TicketRotation", cfg=dict(quick="TicketRotation_quick.cfg", thorough="TicketRotation_thorough.cfg"), workers=4, timeout=300),
+        dict(module="TicketRotation", cfg=dict(quick="TicketRotationSrv_quick.cfg", thorough="TicketRotationSrv_thorough.cfg"), workers=4, timeout=600),
+        dict(module="TicketRotation", cfg=dict(thorough="TicketRotationSrvLive_thorough.cfg"), workers=4, timeout=600),
+        dict(module="TicketRotationHist", cfg=dict(thorough="TicketRotationHist_thorough.cfg"), emit=True, workers=2, timeout=300),
+        dict(module="TicketRotation", cfg=dict(quick="TicketRotationEmit_quick.cfg", thorough="TicketRotationEmit_thorough.cfg"), emit=True, workers=2, timeout=300),
     ],
-    go=[dict(pkg="c16", test="TestC16", timeout=dict(quick=600, thorough=3600))],
+    go=[dict(pkg="c16", test="TestC16", timeout=dict(quick=600, thorough=3600)),
+        dict(pkg="cx16tickets", test="TestCx16Tickets", timeout=dict(quick=300, thorough=900))],
     traces=[dict(name="lifecycle", module="LifecycleTrace", cfg="LifecycleTrace.cfg", timeout=600),
-            dict(name="shutdown", module="ShutdownTrace", cfg="ShutdownTrace.cfg", timeout=600)],
+            dict(name="shutdown", module="ShutdownTrace", cfg="ShutdownTrace.cfg", timeout=600),
+            dict(name="ticketrotation", module="TicketRotationTrace", cfg="TicketRotationTrace.cfg", timeout=600)],
     exhaustive=dict(quick=False, thorough=True),
     technique="TLA+ spec Lifecycle.tla model-checked by TLC; TLC-generated histories executed on the real casket package, recorded traces validated by TLC (LifecycleTrace.tla)",
     level_text="TLC explores every interleaving of the controller steps of Start/Restart/Stop/casket.Stop with the server goroutines and Wait()ers for all histories up to the bound and checks the callback-count/order invariants and the WaitGroup accounting; every history is then executed against the real package (scriptable server type registered through the public plugin API, real loopback sockets for the fd hand-over) and the recorded event trace must be a behaviour of the specification with all invariants holding at every step.",
